@@ -118,6 +118,14 @@ def run(tier, seed, args):
     for i, pr in enumerate(ext_protos):
         cases.append(progs.prog(f"ext-records{i}", [progs.new(), {"op": "ext", "ns": "fx", "url": EXTNS}, {"op": "ext", "ns": "other", "url": "urn:other"},
                                                    progs.pc(pr, 25, seed=seed + i), progs.FIN]))
+    # the same, with the namespace of the extension records declared on an inner element instead of the root
+    for i, (frm, to) in enumerate(((' xmlns:other="urn:other"', ''), )):
+        st = [progs.new(), {"op": "ext", "ns": "fx", "url": EXTNS}, {"op": "ext", "ns": "other", "url": "urn:other"}, progs.pc(ext_protos[1], 25, seed=seed),
+              {"op": "finalize", "xml_replace": [[' xmlns:other="urn:other"', ''], ['<prototype type="Structure">', '<prototype type="Structure" xmlns:other="urn:other">']]}]
+        cases.append(progs.prog(f"ext-records-inner-declaration{i}", st))
+        st2 = [progs.new(), {"op": "ext", "ns": "fx", "url": EXTNS}, {"op": "ext", "ns": "other", "url": "urn:other"}, progs.pc(ext_protos[1], 25, seed=seed),
+               {"op": "finalize", "xml_replace": [[' xmlns:other="urn:other"', ''], ['<vectorChild type="Structure">', '<vectorChild type="Structure" xmlns:other="urn:other">']]}]
+        cases.append(progs.prog(f"ext-records-vectorchild-declaration{i}", st2))
     log(f"[C18] {nins} insertions at {len(pts)} insertion points, {len(sp)} elements with foreign attributes, {len(ext_protos)} prototypes with extension records")
     filecommon.run_programs(v, wd, exe, cases, "c18", focus=("C18", "C04", "C01", "C06"), jobs=6, batch_events=600)
     v.add(states=v.cov.get("trace_events", 0), transitions=v.cov.get("trace_events", 0),
